@@ -48,6 +48,71 @@ def run(repo, chk):
     r3(repo, chk, ref)
     r4(repo, chk, ref)
     r5(repo, chk)
+    r2_headers(repo, chk)
+
+
+_PRIM = {"uint8": "U8", "uint16": "U16", "uint32": "U32", "uint64": "U64", "uint_var": "VAR", "bytes": "BYTES"}
+
+
+def r2_headers(repo, chk):
+    """packet header writer (QuicPacketBuilder._end_packet) vs reader (pull_quic_header), path by path"""
+    ph = Fn(repo, "quic.packet:pull_quic_header")
+    ep = Fn(repo, "quic.packet_builder:QuicPacketBuilder._end_packet")
+
+    def seq(fn, prefix, keep):
+        out = []
+        for c in sorted(fn.calls(), key=lambda c: (c.lineno, c.col_offset)):
+            cn = call_name(c)
+            if not cn.startswith("buf." + prefix):
+                continue
+            g = fn.lexical_guards(c, expand=False)
+            if not keep(g, c):
+                continue
+            kind = _PRIM.get(cn[len("buf." + prefix) :], "?")
+            if kind == "U16" and prefix == "push_" and c.args and isinstance(c.args[0], ast.BinOp) and isinstance(c.args[0].op, ast.BitOr) and 0x4000 in (repo.const(fn.mod, c.args[0].left), repo.const(fn.mod, c.args[0].right)):
+                kind = "VAR"  # two-byte varint written by hand
+            out.append((kind, c))
+        return out
+
+    def texts(g):
+        return {a[0] for a in g if a[1]} , {a[0] for a in g if not a[1]}
+
+    for T in ("INITIAL", "ZERO_RTT", "HANDSHAKE"):
+        def keep_r(g, c, T=T):
+            pos, neg = texts(g)
+            if "is_long_header(first_byte)" not in pos or "QuicProtocolVersion.NEGOTIATION == version" in pos:
+                return False
+            for X in ("INITIAL", "ZERO_RTT", "HANDSHAKE"):
+                if f"QuicPacketType.{X} == packet_type" in pos and X != T:
+                    return False
+            if f"QuicPacketType.{T} != packet_type" in pos:
+                return False
+            return True
+
+        def keep_w(g, c, T=T):
+            pos, neg = texts(g)
+            if "QuicPacketType.ONE_RTT != self._packet_type" not in pos:
+                return False
+            if "QuicPacketType.INITIAL == self._packet_type" in pos and T != "INITIAL":
+                return False
+            return True
+
+        r = [("U8", None)] + seq(ph, "pull_", keep_r)  # the first byte is pulled before the long/short test
+        w = seq(ep, "push_", keep_w)
+        rk, wk = [k for k, _ in r], [k for k, _ in w]
+        ok = len(wk) >= 2 and wk[-1] == "U16" and rk == wk[:-1]
+        chk.ob("R2", f"long header ({T}): QuicPacketBuilder writes first byte, version, DCID, SCID{', token' if T == 'INITIAL' else ''}, length, packet number in the order pull_quic_header reads them", ok, f"reader {rk}, writer {wk} (last element of the writer is the packet number, which the reader leaves to header-protection removal)", ep.loc(ep.node))
+    # destination before source
+    wb = [c for k, c in seq(ep, "push_", lambda g, c: "QuicPacketType.ONE_RTT != self._packet_type" in texts(g)[0]) if k == "BYTES"]
+    rb = [st for st, t, v in ph.assigns(chain="destination_cid") + ph.assigns(chain="source_cid") if isinstance(v, ast.Call) and call_name(v) == "buf.pull_bytes" and "is_long_header(first_byte)" in texts(ph.lexical_guards(st, expand=False))[0]]
+    rb.sort(key=lambda st: st.lineno)
+    ok = len(wb) >= 2 and norm(wb[0].args[0]) == "self._peer_cid" and norm(wb[1].args[0]) == "self._host_cid" and [norm(st.targets[0]) for st in rb[:2]] == ["destination_cid", "source_cid"]
+    chk.ob("R2", "long header: the peer's connection ID is written where the reader takes the destination ID, ours where it takes the source ID", ok, f"writer {[norm(c.args[0]) for c in wb[:2]]}, reader {[norm(st.targets[0]) for st in rb[:2]]}", ep.loc(ep.node))
+    # short header
+    rs = [("U8", None)] + seq(ph, "pull_", lambda g, c: "is_long_header(first_byte)" in texts(g)[1])
+    ws = seq(ep, "push_", lambda g, c: "QuicPacketType.ONE_RTT == self._packet_type" in texts(g)[0])
+    ok = [k for k, _ in rs] == ["U8", "BYTES"] and [k for k, _ in ws] == ["U8", "BYTES", "U16"] and norm(ws[1][1].args[0]) == "self._peer_cid"
+    chk.ob("R2", "short header: first byte, destination connection ID, packet number", ok, f"reader {[k for k, _ in rs]}, writer {[k for k, _ in ws]}", ep.loc(ep.node))
 
 
 def r5(repo, chk):
